@@ -134,6 +134,11 @@ class StubConnection(object):
 
 
 class WorldB(object):
+    full_stack = False
+
+    def latency(self):
+        return 0.0
+
     def __init__(self, scn, tape_in=None):
         import_bromelia()
         self.scn = scn
@@ -277,3 +282,173 @@ def draw_knobs_b(rng):
         "PROCESS_TIMER": rng.choice([0.001, 0.001, 0.002, 0.005]),
         "SEND_THRESHOLD_TICKER": rng.choice([0.001, 0.005, 0.02, 0.05]),
     }
+
+
+# ---------------------------------------------------------------------------------------------
+# World B2 -- the full stack: Bromelia.run() -> Worker.start() -> Worker.run() ->
+# Diameter.context() -> a real Diameter node per connection on the simulated OS, each facing a
+# scripted reference peer.  Nothing between the application's handlers and the wire is a stub.
+# ---------------------------------------------------------------------------------------------
+
+class _HeaderView(object):
+    def __init__(self, m):
+        self.hop_by_hop = m["hbh"].to_bytes(4, "big")
+        self.end_to_end = m["e2e"].to_bytes(4, "big")
+        self._req = C.is_request(m)
+
+    def is_request(self):
+        return self._req
+
+
+class _MsgView(object):
+    """What the observers of a connection need of a message seen on the wire (reference decoding)."""
+
+    def __init__(self, m):
+        self.header = _HeaderView(m)
+        self.m = m
+
+
+class WireConnection(object):
+    """Observer with StubConnection's interface for a real node + scripted peer pair: `sent` is what the
+    peer received on the wire (application messages only), `arrive` makes the peer send bytes, `taken`
+    is what the Worker's recv_handler obtained from Diameter.get_message()."""
+
+    def __init__(self, worldb, index, peer, net_cuts):
+        self.wb = worldb
+        self.index = index
+        self.peer = peer
+        self.sent = []
+        self.taken = []
+        self.on_send = None
+        self.node = None
+        self.net_cuts = net_cuts
+        peer.on_message = self._peer_got
+
+    def _peer_got(self, m):
+        if m["app"] == 0 and m["code"] in (C.CE, C.DW, C.DP):
+            return
+        sim = self.wb.sim
+        view = _MsgView(m)
+        raw = m["raw"]
+        self.sent.append((sim.steps, sim.now, raw, view))
+        self.wb.hist("sent", conn=self.index, hbh=view.header.hop_by_hop.hex(), req=view.header.is_request())
+        if self.on_send:
+            self.on_send(self, view, raw)
+
+    def arrive(self, raw):
+        # event context: the scripted peer writes to its socket; segmentation/latency are the network's
+        self.peer.send_raw(raw, label="app")
+
+    def note_taken(self, m):
+        self.taken.append((self.wb.sim.steps, self.wb.sim.now, m))
+        self.wb.hist("taken", conn=self.index, hbh=m.header.hop_by_hop.hex(), req=m.header.is_request())
+
+
+class WorldB2(WorldB):
+    full_stack = True
+
+    def __init__(self, scn, tape_in=None):
+        from simkit.net import NetConfig
+        from ref.peer import ScriptedPeer, History
+        import_bromelia()
+        self.scn = scn
+        sched = scn["sched"]
+        from checks.worlda import HOT_FUNCS
+        self.sim = Sim(random.Random(scn["seed"]), tape_in=tape_in,
+                       quantum=sched.get("quantum", 2e-6),
+                       max_steps=scn.get("max_steps", 3_000_000),
+                       horizon=scn.get("horizon", 60.0),
+                       p_sync=sched.get("p_sync", 0.15), p_line=sched.get("p_line", 0.0),
+                       opcode_funcs=(HOT_FUNCS_B + HOT_FUNCS) if sched.get("opcode") else (),
+                       trace_root=bromelia_trace_root())
+        self.world = SimWorld(self.sim, netcfg=NetConfig(**scn.get("net", {})), knobs=scn.get("knobs"),
+                              urandom_seed=scn["seed"] ^ 0xB0B)
+        self.world.install()
+        self.net = self.world.net
+        self.events = []
+        self.app = None
+        self.workers = []
+        self.stubs = []
+        self.threads = {}
+        self.peers = []
+        self.phist = History(self.sim)
+        self._ScriptedPeer = ScriptedPeer
+
+    def latency(self):
+        """Simulated seconds one message may legitimately spend between the wire and the Worker queues, in
+        each direction (to be added to liveness bounds)."""
+        k = self.world.knobs
+        cfg = self.net.cfg
+        return 1.0 + 2 * k["TRACKING_SOCKET_EVENTS_TIMEOUT"] + 60 * k["STATE_MACHINE_TICKER"] + \
+            (cfg.max_fragments + 2) * cfg.max_latency * 4
+
+    def build(self, app_indices_per_worker):
+        import bromelia.bromelia as bro
+        d = tempfile.mkdtemp(prefix="verif-worldb-")
+        path = os.path.join(d, "config.yaml")
+        with open(path, "w") as f:
+            f.write(yaml_text(app_indices_per_worker))
+        try:
+            app = bro.Bromelia(config_file=path)
+        finally:
+            os.unlink(path)
+            os.rmdir(d)
+        self.app = app
+        bro.Worker.associations = dict()
+        bro.Worker.recv_queues = list()
+        wb = self
+        for i, cfg in enumerate(app.configs):
+            peer = self._ScriptedPeer(self.sim, self.net, PEER_HOST, PEER_REALM, LOCAL_HOST, LOCAL_REALM,
+                                      self.phist, name="peer%d" % i)
+            peer.listen(("127.0.0.1", 3868 + i))
+            self.peers.append(peer)
+            self.stubs.append(WireConnection(self, i, peer, None))
+
+        RealDiameter = bro.Diameter
+        by_port = {}
+
+        class ObservedDiameter(RealDiameter):
+            """The real class; get_message() additionally tells the observer what it returned."""
+
+            def get_message(self):
+                m = RealDiameter.get_message(self)
+                if m is not None:
+                    conn = by_port.get(self.config["PEER_NODE_PORT"])
+                    if conn is not None:
+                        conn.note_taken(m)
+                return m
+        for i in range(len(app.configs)):
+            by_port[3868 + i] = self.stubs[i]
+        bro.Diameter = ObservedDiameter
+        return app
+
+    def start(self):
+        """Bromelia.run(block=True): returns once every connection is open.  Must be called from a
+        simulator thread."""
+        import bromelia.bromelia as bro
+        self.app.run(block=True)
+        seen = []
+        for app_id, w in sorted(bro.Worker.associations.items(), key=lambda kv: repr(kv[0])):
+            if w not in seen:
+                seen.append(w)
+        # order workers by connection index
+        seen.sort(key=lambda w: w.app.config["PEER_NODE_PORT"])
+        self.workers = seen
+        for i, w in enumerate(seen):
+            self.stubs[i].node = w.app
+
+
+def draw_full_stack(rng, scn):
+    """Turns a world-B scenario into a full-stack (B2) one: network behaviour and connection-layer knobs."""
+    scn["full_stack"] = True
+    scn["net"] = {"max_latency": rng.choice([0.0005, 0.003, 0.02]),
+                  "p_fragment": rng.choice([0.0, 0.3, 0.8]), "max_fragments": rng.choice([2, 4]),
+                  "p_partial_write": rng.choice([0.0, 0.2, 0.6]), "p_one_byte_write": rng.choice([0.0, 0.0, 0.05])}
+    scn["knobs"].update({"STATE_MACHINE_TICKER": rng.choice([0.001, 0.002, 0.005, 0.01]),
+                         "WAITING_CONN_TIMER": rng.choice([0.05, 0.3, 2]),
+                         "BROMELIA_LOADING_TICKER": rng.choice([0.02, 0.1]),
+                         "TRACKING_SOCKET_EVENTS_TIMEOUT": rng.choice([0.2, 0.5, 1]),
+                         "SEND_BUFFER_MAXIMUM_SIZE": rng.choice([4096 * 64, 4096, 1200])})
+    scn["horizon"] = scn.get("horizon", 40.0) + 20.0
+    scn["max_steps"] = max(scn.get("max_steps", 3_000_000), 8_000_000)
+    return scn
